@@ -135,6 +135,17 @@ def check(ctx: Ctx, ev: Evidence) -> list[Finding]:
                 e, x = bad
                 out.append(Finding("C12-R2", "source handler | new file data after a successful cancel", f"after a successful Cancel.request the sender can still build a progressing File Data PDU (step {step_of(a, e.pre)})", x.site, witness_of(a, e)))
         else:
+            handled: dict[str, bool] = {}
+            for e in a.edges:
+                if e.label == ("state_machine", "EOF") and e.exc is None and step_of(a, e.pre) in ("RECEIVING_FILE_DATA", "RECV_FILE_DATA_WITH_CHECK_LIMIT_HANDLING") \
+                        and not h.wget(e.pre, "_pdus_to_be_sent"):
+                    cancelled = any(x.kind == "store" and x.name == "_DestFieldWrapper.completion_disposition" and ename(x.args[0]) == "CANCELED" for x in e.ev)
+                    handled[step_of(a, e.pre)] = handled.get(step_of(a, e.pre), False) or cancelled
+            for stp in ("RECEIVING_FILE_DATA", "RECV_FILE_DATA_WITH_CHECK_LIMIT_HANDLING"):
+                if stp in handled:
+                    ev.inst("C12-R3", f"dest handler | EOF(cancel) finishes the transaction in step {stp}: {handled[stp]}", "ok" if handled[stp] else "violation")
+                    if not handled[stp]:
+                        out.append(Finding("C12-R3", f"dest handler | EOF(cancel) ignored in step {stp}", f"an EOF (cancel) arriving in step {stp} does not cancel the transaction", "src/cfdppy/handler/dest.py"))
             # EOF(cancel) received; Finished PDU iff closure or acknowledged
             for e in a.edges:
                 if e.label == ("state_machine", "EOF") and e.exc is None:
